@@ -3,6 +3,7 @@ package main
 import (
 	"archive/zip"
 	"bytes"
+	"encoding/binary"
 	"crypto"
 	"crypto/ecdsa"
 	"crypto/rsa"
@@ -209,6 +210,42 @@ type apkShape struct {
 	// before the central directory (= APK section 1 for a v2-only package) are
 	// exactly Target.
 	Target int `json:"section1_target,omitempty"`
+	// Zip64End: a ZIP64 end-of-central-directory record and locator that no
+	// field needs are placed in front of the classic end record (APPNOTE 6.3
+	// allows that; some writers always emit them).
+	Zip64End bool `json:"zip64_end_records,omitempty"`
+}
+
+// addZip64End inserts the optional ZIP64 end record + locator in front of a
+// comment-less classic end record, leaving every other byte alone.
+func addZip64End(z []byte) []byte {
+	eocd := len(z) - 22
+	if eocd < 0 || binary.LittleEndian.Uint32(z[eocd:]) != 0x06054b50 {
+		panic("addZip64End: no comment-less end record")
+	}
+	n := uint64(binary.LittleEndian.Uint16(z[eocd+8:]))
+	total := uint64(binary.LittleEndian.Uint16(z[eocd+10:]))
+	cdSize := uint64(binary.LittleEndian.Uint32(z[eocd+12:]))
+	cdOff := uint64(binary.LittleEndian.Uint32(z[eocd+16:]))
+	var b bytes.Buffer
+	b.Write(z[:eocd])
+	le := func(v any) { binary.Write(&b, binary.LittleEndian, v) }
+	le(uint32(0x06064b50))
+	le(uint64(44))
+	le(uint16(45))
+	le(uint16(45))
+	le(uint32(0))
+	le(uint32(0))
+	le(n)
+	le(total)
+	le(cdSize)
+	le(cdOff)
+	le(uint32(0x07064b50))
+	le(uint32(0))
+	le(uint64(eocd))
+	le(uint32(1))
+	b.Write(z[eocd:])
+	return b.Bytes()
 }
 
 func buildAPK(s apkShape) []byte {
@@ -223,6 +260,9 @@ func buildAPK(s apkShape) []byte {
 			panic("apk target too small")
 		}
 		ms = append(ms, zmember{Name: name, Raw: noise(99, pad)})
+	}
+	if s.Zip64End {
+		return addZip64End(buildZip(ms))
 	}
 	return buildZip(ms)
 }
@@ -240,6 +280,7 @@ func apkFamily() []apkShape {
 		{ID: "small/4-members", Members: []zmember{man, mf, dex, res}},
 		{ID: "small/empty-member", Members: []zmember{man, mf, {Name: "assets/empty", Size: 0}}},
 		{ID: "small/no-jar-manifest", Members: []zmember{man, res}},
+		{ID: "small/zip64-end-records", Members: []zmember{man, mf, res}, Zip64End: true},
 	}
 	for _, t := range []int{M - 1, M, M + 1, 2*M - 1, 2 * M, 2*M + 1, 2*M + 4097} {
 		out = append(out, apkShape{ID: fmt.Sprintf("boundary/section1=%d", t), Members: []zmember{man, mf, res}, Target: t})
